@@ -279,10 +279,13 @@ func checkC10(c *Ctx) {
 		"position queries under -tiny must give file \"\" or \"??\" and line 1 (0 for unknown frames). distinct_nontrivial = distinct (kind, context, GOTRACEBACK) cases in which the regular run wrote >=1 non-OWN byte to stderr (there was something to silence) plus recover/position cases.")
 	c.Assume("GOTRACEBACK=crash is excluded (aborts with a core-dumping signal)", "program-requested traces (debug.PrintStack, runtime.Stack) are not crashes and are not judged")
 	g := buildGarble("", false)
-	cfgs := []Config{K1}
+	// K1g: -tiny while GOGARBLE selects only the program's module: the statement has no GOGARBLE
+	// condition, the runtime is silenced whether or not it is among the obfuscated packages.
+	K1g := K1.with("K1g", nil, []string{"GOGARBLE=zqcrash.example.com"}, nil)
+	cfgs := []Config{K1, K1g}
 	tbs := []string{"", "none", "all"}
 	if !c.Quick() {
-		cfgs = []Config{K1, K5}
+		cfgs = []Config{K1, K5, K1g}
 		tbs = []string{"", "none", "single", "all", "system"}
 	}
 	pool := warmPool(g, false, cfgs...)
